@@ -162,7 +162,7 @@ type v11Sim struct {
 	model    v11AckModel
 	lastSec  int64 // second of the last congestion event (-1: none yet)
 
-	waits, raises, bypass, events, cwndLimited, clipped int
+	waits, raises, bypass, events, cwndLimited, clipped  int
 	sawClamp, sawCompensate, sawFew, sawIdle, ceilCorner bool
 }
 
